@@ -39,7 +39,8 @@ type consCase struct {
 	VC   []string `json:"vc"` // value class per member
 	Cfg  consCfg  `json:"cfg"`
 	Deft bool     `json:"defaultparts"`
-	TSet int      `json:"tset"` // index into tsets: TimeFieldFormat (global), ConsoleWriter.TimeFormat and .TimeLocation
+	Ren  bool     `json:"rename"` // the global field names are changed (after package init) to ts / lvl / src / msg / err; only with defaultparts
+	TSet int      `json:"tset"`   // index into tsets: TimeFieldFormat (global), ConsoleWriter.TimeFormat and .TimeLocation
 }
 
 // tset: one combination of the settings that decide how the time part is rendered. The contract is independent of how
@@ -320,7 +321,16 @@ func (f failingOut) Write(p []byte) (int, error) {
 // Write leaves behind must not show up in the next event's line ("the same event and configuration always give the same bytes").
 func poison(mode int) {
 	ev := []byte(`{"level":"warn","message":"STALE stale","secret":"s3cr3t"}` + "\n")
-	switch mode % 3 {
+	switch mode % 4 {
+	case 3:
+		// another writer that lives at the same time and rearranges ITS OWN default parts in place
+		w := zerolog.NewConsoleWriter(func(w *zerolog.ConsoleWriter) {
+			w.Out, w.NoColor = &bytes.Buffer{}, true
+			if len(w.PartsOrder) > 1 {
+				w.PartsOrder[0], w.PartsOrder[1] = w.PartsOrder[1], w.PartsOrder[0]
+			}
+		})
+		w.Write(ev)
 	case 0:
 		zerolog.ConsoleWriter{Out: failingOut{}, NoColor: true}.Write(ev)
 	case 1:
@@ -330,6 +340,27 @@ func poison(mode int) {
 			return errors.New("extra refused")
 		}}.Write(ev)
 	}
+}
+
+// renamed: canonical member name -> the name it has while the global field names are changed
+var renamed = map[string]string{"time": "ts", "level": "lvl", "caller": "src", "message": "msg", "error": "err"}
+
+func actual(ren bool, name string) string {
+	if r, ok := renamed[name]; ren && ok {
+		return r
+	}
+	return name
+}
+
+func actuals(ren bool, names []string) []string {
+	if names == nil {
+		return nil
+	}
+	out := make([]string, len(names))
+	for i, n := range names {
+		out[i] = actual(ren, n)
+	}
+	return out
 }
 
 func (f *consoleFam) play(l *Line, out *rec) error {
@@ -359,18 +390,24 @@ func (f *consoleFam) play(l *Line, out *rec) error {
 		curTset = tsets[c.TSet%len(tsets)]
 		oldTFF := zerolog.TimeFieldFormat
 		zerolog.TimeFieldFormat = curTset.tff
+		ren := c.Ren && c.Deft
+		oTS, oLV, oCA, oMS, oER := zerolog.TimestampFieldName, zerolog.LevelFieldName, zerolog.CallerFieldName, zerolog.MessageFieldName, zerolog.ErrorFieldName
+		if ren {
+			zerolog.TimestampFieldName, zerolog.LevelFieldName, zerolog.CallerFieldName, zerolog.MessageFieldName, zerolog.ErrorFieldName =
+				renamed["time"], renamed["level"], renamed["caller"], renamed["message"], renamed["error"]
+		}
 		var in bytes.Buffer
 		lg := zerolog.New(&in)
 		e := lg.Log()
 		vals := map[string]interface{}{}
 		for i, name := range c.Ev {
 			var v interface{}
-			e, v = addField(e, name, c.VC[i], ci+i)
+			e, v = addField(e, actual(ren, name), c.VC[i], ci+i)
 			vals[name] = v // last value wins
 		}
 		e.Send()
 		mk := func(o *bytes.Buffer) zerolog.ConsoleWriter {
-			w := zerolog.ConsoleWriter{Out: o, NoColor: true, TimeLocation: curTset.loc, TimeFormat: curTset.layout, PartsExclude: c.Cfg.PExcl, FieldsOrder: c.Cfg.FOrder, FieldsExclude: c.Cfg.FExcl}
+			w := zerolog.ConsoleWriter{Out: o, NoColor: true, TimeLocation: curTset.loc, TimeFormat: curTset.layout, PartsExclude: actuals(ren, c.Cfg.PExcl), FieldsOrder: actuals(ren, c.Cfg.FOrder), FieldsExclude: actuals(ren, c.Cfg.FExcl)}
 			if !c.Deft {
 				w.PartsOrder = append([]string{}, c.Cfg.Parts...)
 			}
@@ -395,7 +432,7 @@ func (f *consoleFam) play(l *Line, out *rec) error {
 		}
 		ft := map[string]string{}
 		for name, v := range vals {
-			ft[name] = name + "=" + fieldText(v)
+			ft[name] = actual(ren, name) + "=" + fieldText(v)
 		}
 		parts, fields, ok := parseUnits(strings.TrimSuffix(line, "\n"), c.Cfg.Parts, pt, ft)
 		if !ok {
@@ -408,7 +445,8 @@ func (f *consoleFam) play(l *Line, out *rec) error {
 			fields = []string{}
 		}
 		zerolog.TimeFieldFormat = oldTFF
-		out.emit(map[string]interface{}{"a": "Case", "ev": c.Ev, "vc": c.VC, "cfg": c.Cfg, "tset": c.TSet, "n": n, "inlen": in.Len(), "err": errs,
+		zerolog.TimestampFieldName, zerolog.LevelFieldName, zerolog.CallerFieldName, zerolog.MessageFieldName, zerolog.ErrorFieldName = oTS, oLV, oCA, oMS, oER
+		out.emit(map[string]interface{}{"a": "Case", "rename": ren, "ev": c.Ev, "vc": c.VC, "cfg": c.Cfg, "tset": c.TSet, "n": n, "inlen": in.Len(), "err": errs,
 			"same": bytes.Equal(o1.Bytes(), o2.Bytes()), "oneline": oneline, "gotparts": parts, "gotfields": fields, "line": line})
 	}
 	return nil
